@@ -26,6 +26,11 @@ BY_PROPERTY = {
                                               'Mahotas.pybody_thresholding_soft_threshold_eq_model']),
             ('Mahotas.Proofs.PyBodyTiesC16Rc', ['Mahotas.pybody_thresholding_rc_eq_model', 'Mahotas.pybody_rc_guard',
                                                 'Mahotas.pybody_rc_maxt'])],
+    'C14': [('Mahotas.Proofs.PyBodyTiesC14',
+             ['Mahotas.pybody_morph__remove_centre_eq_model', 'Mahotas.pybody_offsets_remove_centre',
+              'Mahotas.pybody_morph_locmax_eq_model', 'Mahotas.pybody_morph_locmin_eq_model',
+              'Mahotas.pybody_morph_regmax_eq_model', 'Mahotas.pybody_morph_regmin_eq_model',
+              'Mahotas.pybody_morph_close_holes_eq_model'])],
     'C06': [('Mahotas.Proofs.PyBodyTiesC06', ['Mahotas.pybody_convolve_gaussian_filter1d_eq_model',
                                               'Mahotas.pybody_convolve_laplacian_2D_eq_model'])],
 }
